@@ -199,7 +199,9 @@ class DualQuaternion:
                 return DualQuaternion(real, dual)
         elif isinstance(left, UnitDualQuaternion) and base.isvector(right, 3):
             v = base.getvector(right, 3)
-            vp = left * DualQuaternion.Pure(v) * left.conj()
+            # the point transformation uses the conjugate (real*, -dual*)
+            conj = DualQuaternion(left.real.conj(), -1 * left.dual.conj())
+            vp = left * DualQuaternion.Pure(v) * conj
             return vp.dual.v
 
     def matrix(self):
